@@ -412,7 +412,7 @@ def step (st : St) (line : String) : St × String :=
       match einfo c with
       | none => (st, "bad-class")
       | some e =>
-        let text := String.ofList (Values.strip (unhex t).toList)
+        let text := String.ofList (Values.stripX (unhex t).toList)
         let o : Parser.Oracle := ⟨if f == "x" then none else parseVal f, if z == "x" then none else parseVal z⟩
         match Parser.elementValue (valueCheck e) text o with
         | .ok v => ({ st with insts := st.insts.insert i (mkInst e true v) }, "ok")
